@@ -950,30 +950,22 @@ private:
 		const ColumnList& columnList = GetColumnList();
 		if (std::is_same<RowFilter, EmptyRowFilter>::value)
 			Reserve(rows.GetCount());
-		try
+		for (ConstRowReference rowRef : rows)
 		{
-			for (ConstRowReference rowRef : rows)
+			if (!rowFilter(rowRef))
+				continue;
+			mRaws.Reserve(mRaws.GetCount() + 1);
+			Raw* raw = pvImportRaw(columnList, rowRef.GetRaw());
+			try
 			{
-				if (!rowFilter(rowRef))
-					continue;
-				mRaws.Reserve(mRaws.GetCount() + 1);
-				Raw* raw = pvImportRaw(columnList, rowRef.GetRaw());
-				try
-				{
-					mIndexes.AddRaw(raw);
-				}
-				catch (...)
-				{
-					pvDestroyRaw(raw);
-					throw;
-				}
-				mRaws.AddBackNogrow(raw);
+				mIndexes.AddRaw(raw);
 			}
-		}
-		catch (...)
-		{
-			pvDestroyRaws();
-			throw;
+			catch (...)
+			{
+				pvDestroyRaw(raw);
+				throw;
+			}
+			mRaws.AddBackNogrow(raw);
 		}
 		pvSetNumbers();
 	}
